@@ -8,20 +8,31 @@ import random
 import struct
 
 
-def _block(trans, types, abbrs, tl, isstd=None, isut=None, leaps=()):
+def _block(trans, types, abbrs, tl, isstd=None, isut=None, leaps=(), nodedup=False):
     chars = b""
     aidx = {}
+    tidx = []          # designation index per type
     for a in abbrs:
+        if nodedup:
+            # every type gets a copy of its own (the same text at different indices), except that a designation which is
+            # a proper suffix of the previous one points inside it, as zic does
+            if tidx and len(abbrs[len(tidx) - 1]) > len(a) and abbrs[len(tidx) - 1].endswith(a):
+                tidx.append(tidx[-1] + len(abbrs[len(tidx) - 1]) - len(a))
+                continue
+            tidx.append(len(chars))
+            chars += a + b"\0"
+            continue
         if a not in aidx:
             aidx[a] = len(chars)
             chars += a + b"\0"
+        tidx.append(aidx[a])
     body = b""
     for at, _ in trans:
         body += struct.pack(">q" if tl == 8 else ">i", at)
     for _, ti in trans:
         body += struct.pack(">B", ti)
-    for off, dst, ab in types:
-        body += struct.pack(">iBB", off, 1 if dst else 0, aidx[ab])
+    for k, (off, dst, ab) in enumerate(types):
+        body += struct.pack(">iBB", off, 1 if dst else 0, tidx[k])
     body += chars
     for lt, corr in leaps:
         body += struct.pack(">q" if tl == 8 else ">i", lt) + struct.pack(">i", corr)
@@ -32,21 +43,21 @@ def _block(trans, types, abbrs, tl, isstd=None, isut=None, leaps=()):
     return counts, body
 
 
-def tzif(version, trans, types, footer=None, fat=False, isstd=False, isut=False, leaps=()):
+def tzif(version, trans, types, footer=None, fat=False, isstd=False, isut=False, leaps=(), nodedup=False):
     """trans: [(unix_time, type_index)], types: [(utoff, isdst, abbr-bytes)].
     version: 1..4. For version >= 2 the v1 block is minimal (slim) unless fat."""
     abbrs = [t[2] for t in types]
     if version == 1:
         t32 = [(a, i) for a, i in trans if -2 ** 31 <= a < 2 ** 31]
-        counts, body = _block(t32, types, abbrs, 4, isstd, isut, leaps)
+        counts, body = _block(t32, types, abbrs, 4, isstd, isut, leaps, nodedup=nodedup)
         return b"TZif" + b"\0" + b"\0" * 15 + counts + body
     vb = str(version).encode()
     if fat:
         t32 = [(a, i) for a, i in trans if -2 ** 31 <= a < 2 ** 31]
-        c1, b1 = _block(t32, types, abbrs, 4, isstd, isut)
+        c1, b1 = _block(t32, types, abbrs, 4, isstd, isut, nodedup=nodedup)
     else:
         c1, b1 = _block([], [(0, False, b"")], [b""], 4)   # what zic -b slim writes: one dummy type
-    c2, b2 = _block(trans, types, abbrs, 8, isstd, isut, leaps)
+    c2, b2 = _block(trans, types, abbrs, 8, isstd, isut, leaps, nodedup=nodedup)
     out = b"TZif" + vb + b"\0" * 15 + c1 + b1 + b"TZif" + vb + b"\0" * 15 + c2 + b2
     out += b"\n" + (footer or b"") + b"\n"
     return out
@@ -178,9 +189,11 @@ def rand_zone(r, idx):
     if version == 1:
         trans = [(a, i) for a, i in trans if -2 ** 31 <= a < 2 ** 31]
     fat = r.random() < 0.3
-    data = tzif(version, trans, types, footer, fat=fat, isstd=r.random() < 0.3, isut=r.random() < 0.3)
+    # the same designation text stored more than once / shared tails (different indices, equal text)
+    nodedup = r.random() < 0.2
+    data = tzif(version, trans, types, footer, fat=fat, isstd=r.random() < 0.3, isut=r.random() < 0.3, nodedup=nodedup)
     tag = (footer or b"nofooter").decode("latin-1").replace("/", "_").replace("<", "(").replace(">", ")")
-    return "gen/%04d-v%d-%s" % (idx, version, tag[:40]), data
+    return "gen/%04d-v%d%s-%s" % (idx, version, "n" if nodedup else "", tag[:40]), data
 
 
 # footers on which earlier probing found the library wrong (kept in every run so that the
